@@ -234,6 +234,16 @@ func runC14(c *Ctx) {
 		{
 			bc := genBattle(r, 2, false)
 			w0 := bc.Warriors[0]
+			if r.Chance(1, 60) && len(w0.Code) > 0 {
+				// a very long warrior (more than 2^16 instructions): the simulator's copy is as long as the original
+				long := make([]mars.Insn, r.Range(65537, 70000))
+				for i := range long {
+					long[i] = w0.Code[i%len(w0.Code)]
+				}
+				w0.Code = long
+				w0.Start = r.Intn(len(long))
+				c.Inc("aliasing_checks_with_more_than_65536_instructions")
+			}
 			caller := &g.WarriorData{Name: "caller", Author: "me", Strategy: "s\n", Code: toGCode(w0.Code), Start: w0.Start}
 			spare := r.Chance(1, 2)
 			if spare {
